@@ -97,7 +97,8 @@ PROPS = {
                  "extension_degree_from_proof_bytes and ExtensionDegree::try_from(u8) are exact. Pure lemmas over these contracts: enc(p) has length 1 + 32*(5 + d + 2k); decoding then "
                  "re-encoding returns the identical bytes; the encoding of a well-formed proof is accepted and decodes to the same proof field by field; every proof the prover "
                  "outputs with bits*aggregation >= 2 is well-formed (shape postcondition of prove_with_rng). KNOWN FINDING: for bits*aggregation == 1 the prover outputs zero "
-                 "rounds and the decoder refuses its own encoding (obligation C15.roundtrip_zero_rounds, listed in known_findings.txt). The serde wrappers are under contract (unit serde): Serialize::serialize hands "
+                 "rounds and the decoder refuses its own encoding (obligation C15.roundtrip_zero_rounds, listed in known_findings.txt). The forwarding impls of src/ristretto.rs are under contract (unit ristretto_glue): from_fixed_bytes / as_fixed_bytes keep the 32 bytes of a point encoding verbatim, "
+                 "decompress / compress / from_uniform_bytes are exactly dalek's functions. The serde wrappers are under contract (unit serde): Serialize::serialize hands "
                  "exactly enc(p) to the serializer's serialize_bytes, and the Deserialize visitor's visit_bytes returns Ok exactly on accept_spec and decodes field by field as "
                  "from_bytes does - for an arbitrary Serializer / error type (serde's own dispatch from deserialize_bytes to visit_bytes is the library's).",
         "assumptions": [
